@@ -1,14 +1,14 @@
 CONSTANTS
   Variant = "fixed"
-  Datas <- DatasD
-  Limits = {5, 9}
+  Datas <- DatasQ
+  Limits = {2, 6}
   Modes = {TRUE, FALSE}
   RIs = {TRUE, FALSE}
-  BufSizes = {1, 4}
-  KMax = 3
+  BufSizes = {2}
+  KMax = 2
   ErrBudget = 1
   MaxOps = 2
-  Sizes = {2, 10}
+  Sizes = {1, 8}
   OpNames = {"read", "read1", "peek", "readall", "readline", "next", "readinto", "readinto1"}
 INIT Init
 NEXT Next
